@@ -148,6 +148,9 @@ def sample_cfg(name: str, rng, tier: str = "quick", small: bool = True) -> dict:
         if not big:
             cfg["gen"]["max_length"] = rng.choice([1.0, 1.5, 2.0, 3.0])
         cfg["kw"] = {"prize_type": cfg["gen"]["prize_type"]}
+        if rng.random() < 0.3:
+            # the environment's own `prize_type` argument is only validated; the prizes are the instance's
+            cfg["kw"] = {"prize_type": rng.choice(["dist", "unif", "const"])}
     elif name in ("pctsp", "spctsp"):
         cfg["gen"] = {"num_loc": n}
     elif name == "pdp":
